@@ -8,7 +8,7 @@
 From Coq Require Import String.
 From Coq Require Import List Arith ZArith.
 Import ListNotations.
-From YP Require Import Base.Str Term.Term Engine.Db Engine.DbCursor Engine.DbCursorThms Engine.DbSpec Engine.DbFacts.
+From YP Require Import Base.Str Term.Term Engine.Db Engine.DbCursor Engine.DbCursorThms Engine.DbSpec Engine.DbTotal Engine.DbFacts Engine.DbProg Engine.DbProgThms Engine.RunDbProg.
 
 (* For every history of asserta / assertz / assert_fact / query (all answers, or j answers then
    close) / retract (j answers requested, then closed; j larger than the number of matches = run to
@@ -64,6 +64,15 @@ Theorem C07_ids_invariant : forall mt evs s s' outs,
 Proof. intros mt evs s s' outs I H. exact (proj2 (@no_lost_update mt evs s s' outs I H)). Qed.
 Print Assumptions C07_ids_invariant.
 
+(* "none of these raises": the model has exactly one way of not returning a result - a match outside the
+   specified domain (MStuck: it would build a cyclic term, or the model's fuel ran out).  For every matching
+   function that is never stuck, every event of every history returns: zero-argument facts, goals that are
+   not callable, predicates without facts, exhausted and closed cursors included *)
+Theorem C07_nothing_raises : forall mt, (forall pat args, mt pat args <> MStuck) ->
+  forall evs s, exists s' outs, run mt s evs = Some (s', outs).
+Proof. exact run_total. Qed.
+Print Assumptions C07_nothing_raises.
+
 (* non-vacuity: a history over p/1, flag/0 (zero arguments), q/2 and a predicate without facts, with the
    concrete matching function: nothing raises, nothing is ignored *)
 Example C07_history :
@@ -82,3 +91,33 @@ Example C07_history :
                     VAll [[a; b]]; VOk; VAll []] /\
     map vis outs = snd (srun (match_fact 20) (fun _ => []) ops).
 Proof. eexists. eexists. split; [vm_compute; reflexivity|]. split; vm_compute; reflexivity. Qed.
+
+(* ---- "issued through the Python API or FROM COMPILED CODE" ----
+   DbProg.solve runs clause bodies (goals on dynamic facts and on compiled predicates, =, asserta/assertz/
+   retract/retractall, goals held in bound variables) depth first on a shared heap, the database being
+   threaded through the whole search: a goal stays suspended while the rest of the body - which may
+   update the same predicate - runs for each of its answers.  For every program, body, store, state and
+   fuel: the database updates of the run (tr) are atomic LIST OPERATIONS, each applied to the list that is
+   current when it happens -
+     OIns k front f : the list of k becomes  f :: l  (asserta) or  l ++ [f]  (assertz), f a new Answer;
+     ORet k i a     : an answer of retract: Answer i IS in the current list of k and is deleted from it;
+     ORAll k gone   : retractall: the current list of k without the (distinct, present) Answers gone
+   (valid_trace), the database after the run is their fold in execution order, identities stay unique. *)
+Theorem C07_compiled_updates_are_list_operations : forall uf prog n gs s g g' a tr,
+  ids_ok (gdb g) (gid g) -> solve uf prog n gs s g = Some (g', a, tr) ->
+  valid_trace (gdb g) (gid g) tr /\ (forall k, gdb g' k = apply_outs tr (gdb g) k) /\ ids_ok (gdb g') (gid g').
+Proof. exact prog_no_lost_update. Qed.
+Print Assumptions C07_compiled_updates_are_list_operations.
+
+(* non-vacuity, compiled code: zero-argument facts, a predicate without facts, goals in bound variables
+     m :- assertz(flag), flag, retract(flag), retractall(nope(_)), G = p(7), assertz(G), H = p(X), retract(H), \+... p(X)
+   nothing is stuck (= raises), nothing is ignored: flag/0 is stored and removed, p(7) is stored through G and
+   removed through H, so the final p(X) fails and the query has no answer; 2 Answers were created *)
+Example C07_compiled_history :
+  let flag := TAtom (d "flag") in let p x := TFun (d "p") [x] in
+  let body := [GAssert false flag; GCall (d "flag") []; GRetract flag; GRetractAll (TFun (d "nope") [TVar 0]);
+               GUnify (TVar 1) (p (TInt 7)); GAssert false (TVar 1); GUnify (TVar 2) (p (TVar 0)); GRetract (TVar 2)] in
+  run_prog 100 50 1000 [mkcl (d "m") 3 [] body; mkcl (d "m2") 3 [] (body ++ [GCall (d "p") [TVar 0]])]
+           [(d "m", [], 0); (d "m2", [], 0)] [(d "flag", 0); (d "p", 1); (d "nope", 1)]
+  = OL [OL [otag "answers" [OL [OL []]]; otag "answers" [OL []]]; OL [OL []; OL []; OL []]; onat 4].
+Proof. vm_compute. reflexivity. Qed.
